@@ -30,6 +30,7 @@ structure LayerRec (V : Type) where
   gamma : V
   z0 : V
   conductivity : Option V
+  deriving DecidableEq
 
 def encodeLayer {V : Type} (l : LayerRec V) : Store V :=
   [("london_lambda", l.londonLambda), ("coherence_length", l.coherenceLength), ("thickness", l.thickness),
@@ -47,6 +48,7 @@ structure PolyRec (V : Type) where
   name : Option V
   mesh : V
   points : V
+  deriving DecidableEq
 
 def encodePoly {V : Type} (p : PolyRec V) : Store V :=
   putOpt "name" p.name ++ [("mesh", p.mesh), ("points", p.points)]
